@@ -19,8 +19,9 @@
    "may interrupt a paragraph" restrictions), paragraphs with laziness, ATX and setext
    headings, fenced and indented code, thematic breaks, blank lines, tabs.
    HTML blocks: start conditions 2, 6, 7 for the tag names of the alphabets.
-   Not modelled (outside every alphabet used with this module): HTML block kinds 1, 3-5, link reference
-   definitions; inline structure is in MdInline. *)
+   Link reference definitions at the start of paragraphs (destination without angle brackets, quoted titles).
+   Not modelled (outside every alphabet used with this module): HTML block kinds 1, 3-5, <..> destinations and
+   parenthesised titles of definitions; inline structure is in MdInline. *)
 EXTENDS Naturals, Sequences, TLC
 
 Peek(l, i) == IF i < Len(l) THEN l[i + 1] ELSE ""      \* 0-based offset
@@ -89,13 +90,66 @@ Tight(items) ==
   ~ \E i \in 1..n :
         \/ (items[i].llb /\ i < n)
         \/ \E j \in 1..Len(items[i].kids) :
-              (i < n \/ j < Len(items[i].kids)) /\ EndsBlank(items[i].kids[j])
+              (i < n \/ j < Len(items[i].kids)) /\ items[i].kids[j].t # "refs" /\ EndsBlank(items[i].kids[j])
+
+
+(* ---- link reference definitions (spec section 4.7) ---------------------------------------------------------------
+   When a paragraph is finished (and before a setext underline turns it into a heading) the definitions at the START of
+   its content are taken off: `[label]:`, optional white space including at most one line ending, a destination (a
+   non-empty run of non-space characters), optionally -- separated by white space including at most one line ending -- a
+   title in single or double quotes, then nothing but white space up to the end of the line.  A title that is not
+   followed by the end of the line is not a title; the definition then ends after the destination if that is where the
+   line ends.  What is left is the paragraph; nothing left: no paragraph (node type "refs", renders nothing). *)
+RECURSIVE Join(_)
+Join(txt) == IF txt = <<>> THEN <<>> ELSE IF Len(txt) = 1 THEN txt[1] ELSE txt[1] \o <<"\n">> \o Join(Tail(txt))
+IsWsNl(c) == c = " " \/ c = "\t" \/ c = "\n"
+RECURSIVE SkipSp(_, _)
+SkipSp(s, i) == IF i <= Len(s) /\ IsSpTab(s[i]) THEN SkipSp(s, i + 1) ELSE i
+Spnl(s, i) == LET j == SkipSp(s, i) IN IF j <= Len(s) /\ s[j] = "\n" THEN SkipSp(s, j + 1) ELSE j
+AtEol(s, i) == i > Len(s) \/ s[i] = "\n"
+RECURSIVE LabelEnd(_, _)
+LabelEnd(s, i) == IF i > Len(s) \/ s[i] = "[" THEN 0 ELSE IF s[i] = "]" THEN i ELSE LabelEnd(s, i + 1)
+RECURSIVE DestStop(_, _)
+DestStop(s, i) == IF i <= Len(s) /\ ~IsWsNl(s[i]) THEN DestStop(s, i + 1) ELSE i
+RECURSIVE QuoteClose(_, _, _)
+QuoteClose(s, i, q) == IF i > Len(s) THEN 0 ELSE IF s[i] = q THEN i ELSE QuoteClose(s, i + 1, q)
+NoDef == [ok |-> FALSE, next |-> 0, label |-> <<>>, dest |-> <<>>, title |-> <<>>]
+ParseDef(s, i) ==
+  IF i > Len(s) \/ s[i] # "[" THEN NoDef
+  ELSE LET le == LabelEnd(s, i + 1) IN
+    IF le = 0 \/ ~(\E k \in (i + 1)..(le - 1) : ~IsWsNl(s[k])) \/ le + 1 > Len(s) \/ s[le + 1] # ":" THEN NoDef
+    ELSE LET k == Spnl(s, le + 2)
+             de == DestStop(s, k) IN
+      IF de = k THEN NoDef
+      ELSE LET ts == Spnl(s, de)
+               hasT == ts > de /\ ts <= Len(s) /\ s[ts] \in {"'", "\""}
+               tc == IF hasT THEN QuoteClose(s, ts + 1, s[ts]) ELSE 0
+               afterT == IF tc # 0 THEN SkipSp(s, tc + 1) ELSE 0
+               afterD == SkipSp(s, de)
+               base == [ok |-> TRUE, next |-> 0, label |-> SubSeq(s, i + 1, le - 1), dest |-> SubSeq(s, k, de - 1), title |-> <<>>]
+           IN IF tc # 0 /\ AtEol(s, afterT) THEN [base EXCEPT !.next = afterT + 1, !.title = SubSeq(s, ts + 1, tc - 1)]
+              ELSE IF AtEol(s, afterD) THEN [base EXCEPT !.next = afterD + 1]
+              ELSE NoDef
+RECURSIVE DefsFrom(_, _)
+DefsFrom(s, i) == LET r == ParseDef(s, i) IN
+                  IF r.ok THEN <<[label |-> r.label, dest |-> r.dest, title |-> r.title]>> \o DefsFrom(s, r.next) ELSE <<>>
+RECURSIVE RestStart(_, _)
+RestStart(s, i) == LET r == ParseDef(s, i) IN IF r.ok THEN RestStart(s, r.next) ELSE i
+RECURSIVE CountNl(_, _)
+CountNl(s, n) == IF n = 0 THEN 0 ELSE (IF s[n] = "\n" THEN 1 ELSE 0) + CountNl(s, n - 1)
+RefDefs(txt) == DefsFrom(Join(txt), 1)
+RefRest(txt) == LET s == Join(txt)
+                    r == RestStart(s, 1) IN
+                IF r > Len(s) THEN <<>> ELSE SubSeq(txt, CountNl(s, r - 1) + 1, Len(txt))
 
 RECURSIVE StripTrailBlank(_)
 StripTrailBlank(txt) == IF txt # <<>> /\ OnlySpaces(Last(txt), 0) THEN StripTrailBlank(Front(txt)) ELSE txt
 
 Fin(nd) ==
   CASE nd.t = "list" -> [nd EXCEPT !.d = [@ EXCEPT !.tight = Tight(nd.kids)]]
+    [] nd.t = "para" /\ RefDefs(nd.txt) # <<>> ->
+         [nd EXCEPT !.t = IF RefRest(nd.txt) = <<>> THEN "refs" ELSE "para", !.d = [defs |-> RefDefs(nd.txt)],
+                    !.ln = nd.ln + (Len(nd.txt) - Len(RefRest(nd.txt))), !.txt = RefRest(nd.txt)]
     [] nd.t = "code" /\ ~nd.d.fenced -> [nd EXCEPT !.txt = StripTrailBlank(@)]
     [] OTHER -> nd
 
@@ -265,8 +319,9 @@ Starts(P, l, lno) ==
   ELSE IF HtmlKind(l, f) # 0 /\ ~(HtmlKind(l, f) = 7 /\ (cont.t = "para" \/ Tip(P.st).t = "para")) THEN
        LET st2 == AddChild(closed, NewNode("html", [hkind |-> HtmlKind(l, f)], lno, col)) IN
        [P EXCEPT !.st = st2, !.m = Len(st2), !.closed = TRUE, !.leaf = TRUE]          \* the whole rest of the line is content
-  ELSE IF cont.t = "para" /\ IsSetextLine(l, f) THEN
-       LET hd == [cont EXCEPT !.t = "heading", !.d = [level |-> IF Peek(l, f.nns) = "=" THEN 1 ELSE 2, setext |-> TRUE]]
+  ELSE IF cont.t = "para" /\ IsSetextLine(l, f) /\ RefRest(cont.txt) # <<>> THEN
+       LET hd == [cont EXCEPT !.t = "heading", !.d = [level |-> IF Peek(l, f.nns) = "=" THEN 1 ELSE 2, setext |-> TRUE, defs |-> RefDefs(cont.txt)],
+                              !.ln = cont.ln + (Len(cont.txt) - Len(RefRest(cont.txt))), !.txt = RefRest(cont.txt)]
            st2 == [closed EXCEPT ![P.m] = hd]
        IN [P EXCEPT !.st = st2, !.closed = TRUE, !.cur = EolCur(l, P.cur), !.leaf = TRUE, !.noline = TRUE]
   ELSE IF IsThematic(l, f) THEN
